@@ -46,7 +46,7 @@ func gwDeclaredResp(o gateway.Object) int {
 	case *gateway.RPCDiscoverIP:
 		return 128
 	case *gateway.RPCSendHeaders:
-		return 8 + int(r.Max)*80 + 8
+		return 8 + int(min(r.Max, (math.MaxInt-16)/80))*80 + 8 // Max capped so that the product cannot wrap
 	case *gateway.RPCSendV2Blocks:
 		return 8 + int(min(r.Max, (math.MaxInt-16)/5000000))*5e6 + 8 // since the fix that made room for the prefix and Remaining
 	case *gateway.RPCSendTransactions:
@@ -292,6 +292,18 @@ func runGatewayFits(b *harness.B) {
 			resp := &gateway.RPCSendHeaders{Index: req.Index, Max: mx, Headers: g.headers(nh), Remaining: g.small()}
 			_, k = gwRoundTrip(b, resp, &gateway.RPCSendHeaders{Index: req.Index, Max: mx}, true, variant, nil)
 			ok = ok && k
+		}
+		if max {
+			// a requester that sets no practical bound: the limit derived from Max must not wrap
+			for _, mx := range []uint64{1 << 60, 0x0333333333333333, 1<<64 - 1, 1 << 62, 1 << 32} {
+				idx := g.chainIndex()
+				resp := &gateway.RPCSendHeaders{Index: idx, Max: mx, Headers: g.headers(2), Remaining: 7}
+				_, k := gwRoundTrip(b, resp, &gateway.RPCSendHeaders{Index: idx, Max: mx}, true, "huge-max", nil)
+				ok = ok && k
+				bresp := &gateway.RPCSendV2Blocks{Max: mx, Blocks: []types.Block{g.block(1, 1)}, Remaining: 7}
+				_, k = gwRoundTrip(b, bresp, &gateway.RPCSendV2Blocks{Max: mx}, true, "huge-max", nil)
+				ok = ok && k
+			}
 		}
 		{
 			var hist []types.BlockID
